@@ -4,7 +4,7 @@ import os
 
 from checks.c01 import load_corpus
 from gen import mutate
-from gen.progs import gen_layout_program, gen_program
+from gen.progs import gen_infer_program, gen_layout_program, gen_order_program, gen_program, infer_violation_programs
 from gen.rng import Rng
 from lib.e2e import run_pipeline
 from lib.front import run_jobs
@@ -96,7 +96,8 @@ def run(tier, seed, replay=None):
         n = 100 if tier == 'quick' else 1500
         for i in range(n):
             r = rng.fork()
-            progs.append(gen_layout_program(r) if i % 3 == 1 else gen_program(r, {'big': i % 4 == 0, 'nfun': 4 + i % 3, 'depth': 2 + i % 3}))
+            progs.append(gen_infer_program(r) if i % 10 == 6 else gen_order_program(r) if i % 10 == 8 else gen_layout_program(r) if i % 3 == 1
+                         else gen_program(r, {'big': i % 4 == 0, 'nfun': 4 + i % 3, 'depth': 2 + i % 3}))
         samples = mutate.load_samples()
         mut = []
         for i in range(24 if tier == 'quick' else 400):
@@ -123,6 +124,10 @@ def run(tier, seed, replay=None):
                 src['Main'] = m['text']
                 fprogs.append({'sources': src, 'entry': 'Main', 'features': ['accepted-fault:' + m['kind']]})
                 fjobs.append({'id': len(fjobs), 'sources': src, 'entries': ['Main'], 'compile': False})
+        for rep in range(2 if tier == 'quick' else 10):
+            for kind, x in infer_violation_programs(fr.fork()):
+                fprogs.append({'sources': x['sources'], 'entry': 'Main', 'features': ['accepted-fault:infer:' + kind]})
+                fjobs.append({'id': len(fjobs), 'sources': x['sources'], 'entries': ['Main'], 'compile': False})
         accepted = 0
         chunks = [fjobs[i::16] for i in range(16)]
         import concurrent.futures
